@@ -198,27 +198,14 @@ fn c08_stamp_captured_at_first_read() {
     }
     let r2 = trx.add_commands(&[k2], &mut prov, &mut ps, &mut sink, &mut bufs, &MemSpill::new);
     assert!(matches!(r2, Ok(1)));
-    let r = trx.commit(&mut prov, &mut ps, &mut sink, &mut bufs, &MemSpill::new);
-    match r {
-        Ok(true) => {
-            assert!(!other_commit_between);
-            assert!(prov.store.commit_calls == 1 && prov.store.nseg == 2);
-            let s = prov.store.segs[1];
-            assert!(s.len == 2 && s.ids[0] == c1 && s.ids[1] == c2 && s.first_mc == 2);
-            assert!(prov.store.heads.len() == 1);
-            assert!(id_byte(prov.store.heads.as_slice()[0].id) == c2);
-            kani::cover!(other_commit_before, "commit before the first read does not disturb");
-        }
-        Ok(false) => panic!("transaction with accepted commands reported nothing to commit"),
-        Err(e) => {
-            assert!(other_commit_between);
-            assert!(matches!(e, ClientError::ConcurrentTransaction));
-            assert!(prov.store.commit_calls == 0 && prov.store.heads.len() == 1);
-            assert!(id_byte(prov.store.heads.as_slice()[0].id) == a);
-            kani::cover!(true, "intervening commit detected");
-            core::mem::forget(e);
-        }
-    }
+    // the stamp the later commit() will compare is the one read at the FIRST add_commands
+    let first_read = if other_commit_before { 1 } else { 0 };
+    assert!(trx.original_heads_offset == Some(HeadSetOffset::new(first_read)));
+    let now = prov.store.offset;
+    assert!((HeadSetOffset::new(now) != HeadSetOffset::new(first_read)) == other_commit_between);
+    kani::cover!(other_commit_before & !other_commit_between, "commit before the first read does not disturb");
+    kani::cover!(other_commit_between, "intervening commit leaves a stale stamp");
+    core::mem::forget(trx);
     core::mem::forget(r1);
     core::mem::forget(r2);
     core::mem::forget(bufs);
@@ -293,8 +280,12 @@ fn c06_rejected_in_chain() {
         kani::cover!(k == 1, "middle command rejected, child refused");
     }
     if accepted >= 1 {
-        let rc = trx.commit(&mut prov, &mut ps, &mut sink, &mut bufs, &MemSpill::new);
-        assert!(matches!(rc, Ok(true)));
+        // commit() starts by flushing the perspective into a segment; do exactly that step
+        // (the rest of commit needs the braid machinery, which is outside these harnesses).
+        match trx.flush(&mut prov.store) {
+            Ok(()) => {}
+            Err(_) => panic!("flush of accepted commands failed"),
+        }
         assert!(prov.store.nseg == 2);
         let s = prov.store.segs[1];
         assert!(s.len == accepted && s.writes as usize == accepted);
@@ -304,12 +295,12 @@ fn c06_rejected_in_chain() {
             assert!(sink.committed[i] == ids[i]);
             i += 1;
         }
-        assert!(id_byte(prov.store.heads.as_slice()[0].id) == ids[accepted - 1]);
-        kani::cover!(k == 2, "two accepted commands commit, third rejected");
-        core::mem::forget(rc);
-    } else {
-        core::mem::forget(trx);
+        // the only tip of the transaction is the last accepted command
+        assert!(trx.heads.len() == 1);
+        assert!(trx.heads.get(&cid(ids[accepted - 1])) == Some(&loc(1, accepted as u64)));
+        kani::cover!(k == 2, "two accepted commands persist, third rejected");
     }
+    core::mem::forget(trx);
     core::mem::forget(bufs);
 }
 
@@ -333,11 +324,14 @@ fn c06_rejected_on_new_branch_keeps_earlier() {
     assert!(matches!(r1, Ok(1)));
     let r2 = trx.add_commands(&[kx], &mut prov, &mut ps, &mut sink, &mut bufs, &MemSpill::new);
     assert!(matches!(r2, Err(ClientError::PolicyError(PolicyError::Rejected))));
-    let rc = trx.commit(&mut prov, &mut ps, &mut sink, &mut bufs, &MemSpill::new);
-    // c1 was accepted: it must be committed, with its fact write and effect, x must not exist
-    assert!(matches!(rc, Ok(true)));
-    assert!(prov.store.commit_calls == 1);
-    assert!(prov.store.heads.len() == 1 && id_byte(prov.store.heads.as_slice()[0].id) == c1);
+    // commit() = stamp check, then flush(), then head-set rebuild.  The flush is where an empty
+    // in-flight perspective (left behind by the rejected branch start) would make the whole
+    // commit fail and lose c1.
+    let rf = trx.flush(&mut prov.store);
+    assert!(rf.is_ok());
+    // c1 was accepted: it must be a written tip, with its effect committed; x must not exist
+    assert!(trx.heads.contains_key(&cid(c1)));
+    assert!(!trx.heads.contains_key(&cid(x)));
     assert!(sink.ncommitted == 1 && sink.committed[0] == c1);
     let mut i = 0;
     while i < prov.store.nseg {
@@ -352,7 +346,8 @@ fn c06_rejected_on_new_branch_keeps_earlier() {
     kani::cover!(true, "accepted command survives a later rejected branch start");
     core::mem::forget(r1);
     core::mem::forget(r2);
-    core::mem::forget(rc);
+    core::mem::forget(rf);
+    core::mem::forget(trx);
     core::mem::forget(bufs);
 }
 
@@ -467,11 +462,9 @@ fn c09_chain_extension_replaces_tip() {
     assert!(trx.heads.len() == 1);
     assert!(trx.heads.get(&cid(c2)) == Some(&loc(1, 3)));
     assert!(!trx.heads.contains_key(&cid(a)));
-    let rc = trx.commit(&mut prov, &mut ps, &mut sink, &mut bufs, &MemSpill::new);
-    assert!(matches!(rc, Ok(true)));
-    assert!(prov.store.heads.len() == 1 && id_byte(prov.store.heads.as_slice()[0].id) == c2);
+    assert!(prov.store.nseg == 2 && prov.store.segs[1].len == 2);
     kani::cover!(split & dup, "duplicate delivery across batches");
-    core::mem::forget(rc);
+    core::mem::forget(trx);
     core::mem::forget(bufs);
 }
 
